@@ -37,6 +37,24 @@ ASSUMPTIONS = [
 ]
 
 
+def _closure_name_alias(f, depth=0):
+    """the (name, alias) pair an item_property closure was created with, wherever in its nest of closures it is captured
+    (not tied to the name of the helper that picks the key)"""
+    try:
+        nl = inspect.getclosurevars(f).nonlocals
+    except TypeError:
+        return None
+    if "name" in nl:
+        return {"name": nl.get("name"), "alias": nl.get("alias")}
+    if depth < 3:
+        for v in nl.values():
+            if inspect.isfunction(v):
+                r = _closure_name_alias(v, depth + 1)
+                if r is not None:
+                    return r
+    return None
+
+
 def declarations(cls):
     """(attr, name, alias) for every item_property declared on cls or its bases, read from the real class."""
     out = []
@@ -46,11 +64,9 @@ def declarations(cls):
             if attr in seen or not isinstance(raw, property) or raw.fget is None:
                 continue
             if raw.fget.__code__.co_filename.endswith("_private/property.py"):
-                cv = inspect.getclosurevars(raw.fget).nonlocals
-                noa = cv.get("_name_or_alias")
-                if noa is None:
+                nv = _closure_name_alias(raw.fget)
+                if nv is None:
                     continue
-                nv = inspect.getclosurevars(noa).nonlocals
                 out.append((attr, nv.get("name"), nv.get("alias")))
                 seen.add(attr)
     return sorted(out)
